@@ -145,7 +145,7 @@ def obligations_taylor(R, v, pc):
     mm = S.rat(Fr(1, 1000))
     for i in range(3):
         obls.append(enga.holds('taylor branch L1: branch condition implies |v[%d]| <= 1e-3' % i,
-                               z3.And(vv[i] <= mm, vv[i] >= -mm), 'rotvec taylor branch', list(pc), {'check': 'rotvec'}))
+                               z3.And(vv[i] <= mm, vv[i] >= -mm), 'rotvec taylor branch', list(pc), {'check': 'rotvec', 'use_model': True}))
     N2 = z3.Real('N2')
     for nm, dv, den in (('cos', dc, 720), ('k1', d1, 5040), ('k2', d2, 40320)):
         obls.append(enga.holds('taylor branch L2: remainder of %s <= 1e-18/%d' % (nm, den),
